@@ -1,4 +1,4 @@
-From Tetl Require Import Lib.Base C08.Model C08.Spec.
+From Tetl Require Import Lib.Base C08.Model C08.Spec C08.ModelExt C08.SpecExt.
 Require Extraction.
 Require Import ExtrOcamlBasic.
 Extraction Language OCaml.
@@ -16,4 +16,14 @@ Extraction "C08_model.ml" wire_anchor
   find_last_not_of_m find_last_not_of_c_m find_last_not_of_p_m find_last_not_of_pc_m
   find_s rfind_s find_first_of_s find_first_not_of_s find_last_of_s find_last_not_of_s contains_s
   substr_s copy_s remove_prefix_s remove_suffix_s compare_s compare3_s compare5_s
-  starts_with_s ends_with_s rel_s cstr_s sub.
+  starts_with_s ends_with_s rel_s cstr_s sub
+  (* review extension (ModelExt.v / SpecExt.v): defaulted arguments, heterogeneous relational operators,
+     element access, swap *)
+  find_d_m find_c_d_m find_p_d_m rfind_d_m rfind_c_d_m rfind_p_d_m
+  find_first_of_d_m find_first_of_c_d_m find_first_of_p_d_m
+  find_first_not_of_d_m find_first_not_of_c_d_m find_first_not_of_p_d_m
+  find_last_of_d_m find_last_of_c_d_m find_last_of_p_d_m
+  find_last_not_of_d_m find_last_not_of_c_d_m find_last_not_of_p_d_m
+  substr_d0_m substr_d1_m copy_d_m rel6_m rel_pl_m rel_pr_m front_m back_m index_m swap_m
+  find_d_s rfind_d_s find_first_of_d_s find_first_not_of_d_s find_last_of_d_s find_last_not_of_d_s
+  substr_d0_s substr_d1_s copy_d_s index_s front_s back_s.
